@@ -93,6 +93,8 @@ package gateway
 //@ func (*handler1).handleClientPublish
 //@   nopanic [C25]
 //@   at Store.0 before check [C06] no_broker_exchange_replaced: !(arg(1) in h.transactions.bypktID) || !(startedByBroker(h.transactions.bypktID[arg(1)]) && inProgress(h.transactions.bypktID[arg(1)]))
+// C32: a predefined ID means, for the client, the entry of its own client ID (else the "*" entry); the gateway can resolve it that way only once it knows the client ID (after CONNECT)
+//@   at mqttSend.0 before check [C32] predefined_id_resolved_for_a_known_client: snPublish.TopicIDType == 1 ==> state(h) != 0
 //@   ensures [C06] only_qos1_touches_the_store: snPublish.QOS != 1 ==> (forall k uint16 :: (k in h.transactions.bypktID) == old(k in h.transactions.bypktID) && h.transactions.bypktID[k] == old(h.transactions.bypktID[k]))
 //@   requires [C25] inv: hInv(h)
 //@   requires [C25] pkt: snPublish != nil
@@ -119,7 +121,7 @@ package gateway
 //@      h.mqttOut[n0].(*mqPkts.PublishPacket).Dup == snPublish.dup
 //@   ensures [C01] qos: h.mqttOutN == n0 + 1 ==> h.mqttOut[n0].(*mqPkts.PublishPacket).Qos == ite(snPublish.QOS == 3, 0, snPublish.QOS)
 //@   ensures [C01] msgid: h.mqttOutN == n0 + 1 ==> h.mqttOut[n0].(*mqPkts.PublishPacket).MessageID == snPublish.messageID
-//@   ensures [C01] topic: h.mqttOutN == n0 + 1 ==> old(denotesName(h, tit, tid, sentName))
+//@   ensures [C01,C32] topic: h.mqttOutN == n0 + 1 ==> old(denotesName(h, tit, tid, sentName))
 
 // ---- C23 / C11: sending to the client ----
 // Asleep: the packet is queued (appended to pktBuffer), nothing is sent.
@@ -414,6 +416,8 @@ package gateway
 //@   ensures [C07] no_activation_without_broker: old(state(h)) == 0 ==> state(h) == 0
 //@   ensures [C07,C11] sleeping_client_becomes_active: (old(state(h)) == 2 || old(state(h)) == 3) && snConnect.ProtocolID == 1 ==>
 //@      h.mqttOutN == old(h.mqttOutN) && (result == nil ==> state(h) == 1 && len(h.pktBuffer) == 0)
+// C32: from a CONNECT that starts a connect exchange on, predefined IDs are resolved for the client ID the client sent
+//@   ensures [C32] client_id_recorded: snConnect.ProtocolID == 1 && (old(state(h)) == 0 || old(state(h)) == 1) && snConnect.Duration != 0 ==> strBytesEq(h.clientID, snConnect.ClientID)
 //@   ensures [C09] zero_keepalive_refused: snConnect.ProtocolID == 1 && (old(state(h)) == 0 || old(state(h)) == 1) && snConnect.Duration == 0 ==>
 //@      h.mqttOutN == old(h.mqttOutN) && (h.snOutN == old(h.snOutN) + 1 ==> istype(h.snOut[old(h.snOutN)], *snPkts1.Connack) &&
 //@         h.snOut[old(h.snOutN)].(*snPkts1.Connack).ReturnCode == 3)
@@ -514,10 +518,10 @@ package gateway
 //@   ensures [C03] one_filter: h.mqttOutN == n0 + 1 ==> len(h.mqttOut[n0].(*mqPkts.SubscribePacket).Topics) == 1
 //@   ensures [C03] filter_string: h.mqttOutN == n0 + 1 && snSubscribe.TopicIDType == 0 ==>
 //@      h.mqttOut[n0].(*mqPkts.SubscribePacket).Topics[0] == snSubscribe.TopicName
-//@   ensures [C03] filter_predefined: h.mqttOutN == n0 + 1 && snSubscribe.TopicIDType == 1 ==>
+//@   ensures [C03,C32] filter_predefined: h.mqttOutN == n0 + 1 && snSubscribe.TopicIDType == 1 ==>
 //@      old(nameDefined(h.predefinedTopics, h.clientID, snSubscribe.TopicID)) &&
 //@      h.mqttOut[n0].(*mqPkts.SubscribePacket).Topics[0] == old(nameSpec(h.predefinedTopics, h.clientID, snSubscribe.TopicID))
-//@   ensures [C03] filter_short: h.mqttOutN == n0 + 1 && snSubscribe.TopicIDType == 2 ==>
+//@   ensures [C03,C32] filter_short: h.mqttOutN == n0 + 1 && snSubscribe.TopicIDType == 2 ==>
 //@      len(h.mqttOut[n0].(*mqPkts.SubscribePacket).Topics[0]) == 2 &&
 //@      h.mqttOut[n0].(*mqPkts.SubscribePacket).Topics[0][0] == uint8(snSubscribe.TopicID >> 8) &&
 //@      h.mqttOut[n0].(*mqPkts.SubscribePacket).Topics[0][1] == uint8(snSubscribe.TopicID)
@@ -549,7 +553,7 @@ package gateway
 //@      len(h.mqttOut[n0].(*mqPkts.UnsubscribePacket).Topics) == 1
 //@   ensures [C03] filter_string: h.mqttOutN == n0 + 1 && snUnsubscribe.TopicIDType == 0 ==>
 //@      h.mqttOut[n0].(*mqPkts.UnsubscribePacket).Topics[0] == snUnsubscribe.TopicName
-//@   ensures [C03] filter_predefined: h.mqttOutN == n0 + 1 && snUnsubscribe.TopicIDType == 1 ==>
+//@   ensures [C03,C32] filter_predefined: h.mqttOutN == n0 + 1 && snUnsubscribe.TopicIDType == 1 ==>
 //@      h.mqttOut[n0].(*mqPkts.UnsubscribePacket).Topics[0] == nameSpec(h.predefinedTopics, h.clientID, snUnsubscribe.TopicID)
 
 // ---- the step for a packet from the broker ----
